@@ -422,7 +422,67 @@ func Run(c *engine.Ctx) {
 		}
 	}
 	c.Bound("sequential", fmt.Sprintf("%d operation instances over %d operand document variants x %d second-operand variants", total, len(names), len(names)))
+	vocabulary(c, docs)
 	schedules(c)
+}
+
+// vocabulary: operand values drawn from the vocabulary of the library's own sources (every word-like string literal
+// as written and in lower / upper / title case; structural literals embedded in filler). An operation that
+// canonicalises, sanitises or normalises a recognised word in place shows only on such a word. One case = one value
+// put into every string-valued place (except the identifier) of every node of a fully populated document (package and
+// file kinds), then the whole operation table run on it; the snapshot is compared once, and on a difference every
+// operation is re-run alone on a fresh document to name the one that wrote.
+func vocabulary(c *engine.Ctx, docs map[string]func() *sbom.Document) {
+	c.Group("string-vocabulary")
+	vals := gen.Vocabulary()
+	c.Bound("string-vocabulary", fmt.Sprintf("%d values from the source vocabulary x every string-valued place (nested to depth 2) of the 3 nodes of the fully populated multi-root document (two packages, one file) x the whole operation table", len(vals)))
+	if gen.LiteralsUnavailable {
+		c.Note("source vocabulary unavailable: string-vocabulary not explored")
+		c.Cap("source-vocabulary-unavailable")
+		return
+	}
+	build := func(v string) *sbom.Document {
+		d := docs["full-multiroot"]()
+		for _, n := range d.NodeList.Nodes {
+			for _, sl := range gen.StringSlots(n, 2) {
+				if sl.Field == "id" {
+					continue
+				}
+				sl.Set(n.ProtoReflect(), v)
+			}
+		}
+		return d
+	}
+	for vi := range vals {
+		vi := vi
+		c.Case(func() any { return map[string]string{"value": vals[vi]} }, func(t *engine.T) *engine.Violation {
+			d, aux := build(vals[vi]), docs["full-tree"]()
+			before, beforeAux := gen.Snap(d), gen.Snap(aux)
+			ops := Ops(d)
+			for _, o := range ops {
+				o.Run(d, aux)
+			}
+			t.Transitions(len(ops))
+			t.Validated(2)
+			if gen.Snap(d) != before || gen.Snap(aux) != beforeAux {
+				for _, o := range Ops(build(vals[vi])) {
+					d1, a1 := build(vals[vi]), docs["full-tree"]()
+					b1, ba1 := gen.Snap(d1), gen.Snap(a1)
+					o.Run(d1, a1)
+					if a := gen.Snap(d1); a != b1 {
+						return engine.Violate("operand-mutated", opFamily(o.Name), "%s changed its operand (every string place = %q): %s", o.Name, vals[vi], gen.SnapDiff(b1, a))
+					}
+					if a := gen.Snap(a1); a != ba1 {
+						return engine.Violate("operand-mutated", opFamily(o.Name), "%s changed its second operand (first operand: every string place = %q): %s", o.Name, vals[vi], gen.SnapDiff(ba1, a))
+					}
+				}
+				return engine.Violate("operand-mutated", "sequence", "the operation table run in sequence changed an operand (every string place = %q) although no single operation does: %s", vals[vi], gen.SnapDiff(before, gen.Snap(d)))
+			}
+			t.State("vocab|" + vals[vi])
+			t.Outcome("unchanged:vocabulary")
+			return nil
+		})
+	}
 }
 
 func opFamily(name string) string {
